@@ -119,10 +119,11 @@ class jitter_x86_32(Jitter):
 
     def func_ret_stdcall(self, ret_addr, ret_value1=None, ret_value2=None):
         self.pc = self.cpu.EIP = ret_addr
+        # Negative values (comparison results, ...) are returned modulo 2^32
         if ret_value1 is not None:
-            self.cpu.EAX = ret_value1
+            self.cpu.EAX = ret_value1 & 0xFFFFFFFF
         if ret_value2 is not None:
-            self.cpu.EDX = ret_value2
+            self.cpu.EDX = ret_value2 & 0xFFFFFFFF
 
     def func_prepare_stdcall(self, ret_addr, *args):
         for arg in reversed(args):
@@ -140,10 +141,11 @@ class jitter_x86_32(Jitter):
 
     def func_ret_cdecl(self, ret_addr, ret_value1=None, ret_value2=None):
         self.pc = self.cpu.EIP = ret_addr
+        # Negative values (comparison results, ...) are returned modulo 2^32
         if ret_value1 is not None:
-            self.cpu.EAX = ret_value1
+            self.cpu.EAX = ret_value1 & 0xFFFFFFFF
         if ret_value2 is not None:
-            self.cpu.EDX = ret_value2
+            self.cpu.EDX = ret_value2 & 0xFFFFFFFF
 
     get_arg_n_cdecl = get_stack_arg
 
@@ -254,7 +256,8 @@ class jitter_x86_64(Jitter):
     def func_ret_stdcall(self, ret_addr, ret_value=None):
         self.pc = self.cpu.RIP = ret_addr
         if ret_value is not None:
-            self.cpu.RAX = ret_value
+            # Negative values are returned modulo 2^64
+            self.cpu.RAX = ret_value & 0xFFFFFFFFFFFFFFFF
         return True
 
     # cdecl
